@@ -24,6 +24,7 @@ type hostileInput struct {
 	cmds  [][]string // cmd (1) / seq (n)
 	label string     // command name / mutation name (used in signatures)
 	heavy bool
+	cut   int // cmd/seq: > 0 = the request bytes are written in two segments, cut at this offset (negative: from the end)
 }
 
 var c13Setup = [][]string{
@@ -214,6 +215,30 @@ func c13MultiEach(names []string) []hostileInput {
 			cmd := append(append([]string{}, base...), extra...)
 			out = append(out, hostileInput{kind: "seq", cmds: [][]string{{"MULTI"}, cmd, {"EXEC"}}, label: "multi-each+" + strings.ToLower(n)})
 		}
+	}
+	return out
+}
+
+// c13Fragmented: well-formed commands whose bytes reach the emulator in two segments, as the very first input of a
+// connection (small commands cut after the first byte, in the middle and before the last byte; values of 8-64 KiB
+// that need several reads anyway).
+func c13Fragmented() []hostileInput {
+	var out []hostileInput
+	small := [][]string{{"PING"}, {"SET", "ks", "value"}, {"GET", "ks"}, {"LRANGE", "kl", "0", "-1"}, {"HGETALL", "kh"}, {"ECHO", "hello world"}, {"MSET", "ks", "1", "kn", "2"}}
+	for _, c := range small {
+		n := len(resp.Cmd(c...))
+		for _, cut := range []int{1, 4, n / 2, n - 3, n - 1} {
+			out = append(out, hostileInput{kind: "cmd", cmds: [][]string{c}, label: "fragmented+" + strings.ToLower(c[0]), cut: cut})
+		}
+		out = append(out, hostileInput{kind: "seq", cmds: [][]string{c, {"PING"}, c}, label: "fragmented-pipeline+" + strings.ToLower(c[0]), cut: n + 3})
+		out = append(out, hostileInput{kind: "seq", cmds: [][]string{c, {"PING"}, c}, label: "fragmented-pipeline+" + strings.ToLower(c[0]), cut: -2})
+	}
+	for _, size := range []int{8000, 8192, 9000, 32768, 65536, 200000} {
+		big := strings.Repeat("v", size)
+		out = append(out, hostileInput{kind: "cmd", cmds: [][]string{{"SET", "kbig", big}}, label: "big-first-command"})
+		out = append(out, hostileInput{kind: "cmd", cmds: [][]string{{"SET", "kbig", big}}, label: "big-first-command", cut: 100})
+		out = append(out, hostileInput{kind: "seq", cmds: [][]string{{"PING"}, {"SET", "kbig", big}, {"STRLEN", "kbig"}}, label: "big-second-command", cut: 20})
+		out = append(out, hostileInput{kind: "cmd", cmds: [][]string{{"ECHO", big}}, label: "big-first-command", cut: -5})
 	}
 	return out
 }
@@ -506,6 +531,16 @@ func (s *c13Shard) execute(in *hostileInput) (res c13Result) {
 		for _, c := range cmds {
 			b = append(b, resp.Cmd(c...)...)
 		}
+		if cut := in.cut; cut != 0 {
+			if cut < 0 {
+				cut = len(b) + cut
+			}
+			if cut > 0 && cut < len(b) {
+				hc.Send(b[:cut])
+				time.Sleep(2 * time.Millisecond)
+				b = b[cut:]
+			}
+		}
 		hc.Send(b)
 		wd := 4 * time.Second
 		if in.heavy {
@@ -680,7 +715,7 @@ func stallSummary(dump string) string {
 }
 
 func checkC13(r *verdict.Run) {
-	r.Rule = "each hostile input (raw byte string, generated command, random MULTI..EXEC sequence, and every command token of the SUT in four minimal argument shapes queued alone inside MULTI..EXEC) is sent on its own connection; plus connection churn (24 goroutines connect, send a fragment or nothing and close or reset, against one emulator, while a steady client sends PING) to a live emulator after a fixed key setup; " +
+	r.Rule = "each hostile input (raw byte string, generated command, random MULTI..EXEC sequence, and every command token of the SUT in four minimal argument shapes queued alone inside MULTI..EXEC) is sent on its own connection; plus well-formed commands that arrive in two segments or need several reads as the first input of a connection; plus connection churn (24 goroutines connect, send a fragment or nothing and close or reset, against one emulator, while a steady client sends PING) to a live emulator after a fixed key setup; " +
 		"monitors: process exit status, canary SET/GET on another connection (3 s watchdog), strict framing of replies, exactly one reply per well-formed command (sentinel ECHO). " +
 		"distinct = (input kind, command or mutation label, outcome class)"
 	// discover the command list from the SUT
@@ -694,6 +729,7 @@ func checkC13(r *verdict.Run) {
 	inputs = append(inputs, cmds...)
 	inputs = append(inputs, c13SeqInputs(rng, append(append([]hostileInput{}, tmpl...), cmds...), tierPick(r, 500, 20000))...)
 	inputs = append(inputs, c13MultiEach(names)...)
+	inputs = append(inputs, c13Fragmented()...)
 	rng.Shuffle(len(inputs), func(i, j int) { inputs[i], inputs[j] = inputs[j], inputs[i] })
 	r.Set("inputs_raw_cmd_seq", fmt.Sprintf("%d inputs over %d command tokens", len(inputs), len(names)))
 	for i := 0; i < 4 && i < len(inputs); i++ {
